@@ -18,4 +18,16 @@ def obligations():
                 functions=['opus_decode', 'opus_decode24', 'celt_float2int16_c'], budget=600,
                 bounds='any float samples in [-1,1], 1..3 samples x 1..2 channels, any frame_size in -1..3, any stub result incl. errors',
                 stubs=['opus_decode_native: synth stub returning the same samples to all three wrappers']))
+    for c in (1, 2, 3):
+      for c2 in range(-2, c):
+        L.append(Ob('H1.downmix_trio.c%d.second%s' % (c, {-2: 'all', -1: 'none'}.get(c2, str(c2))), 'C13_downmix.c', [], ['-DNCH=%d' % c, '-DC2SEL=%d' % c2], unwind=1, inc=['shim'], witness=False,
+                unwindset=['harness:%d' % (2 * c + 1), 'downmix_int:4', 'downmix_int24:4', 'downmix_float:4'], functions=['downmix_int', 'downmix_int24', 'downmix_float'], budget=600,
+                tier=('quick' if c <= 2 else 'thorough'),
+                bounds='%d interleaved channel(s), any int16 samples, one sample at offset 0..1, any first channel, second channel selector %d (-2 all others, -1 none)' % (c, c2)))
+    for ch in (1, 2):
+      L.append(Ob('H2.decoder_exit_points.with_packet.ch%d' % ch, 'C13_dec.c', ['celt/mathops.c', 'src/opus.c'], ['-DCH=%d' % ch, '-DWITHPKT'], unwind=1, inc=['shim'], replace=['opus_decode_native_REAL:syn_native'],
+                unwindset=['harness:8', 'syn_native:7', 'opus_decode:7', 'opus_decode24:7', 'opus_decode_float:7', 'celt_float2int16_c:7', 'opus_packet_parse_impl:4'],
+                functions=['opus_decode', 'opus_decode24', 'celt_float2int16_c'], budget=600,
+                bounds='as H2 plus any 2-byte packet (NULL or not), len 0..2, decode_fec 0/1: the request handed to the native decoder is compared across the three entry points',
+                stubs=['opus_decode_native: synth stub recording frame_size']))
     return L
